@@ -63,13 +63,20 @@ class EffectMixin:
             raise Unsupported("method {} of the {} object is neither a primitive nor translated".format(name, et.name))
         return self.effect_procedure(variants, key, v, target, env, nxt)
 
-    def bind_args(self, params, defaults, v, env, k):
+    def bind_args(self, params, defaults, v, env, k, vararg=None):
         """evaluate the arguments of a call against (name, type) parameters; k(list of Lean codes)"""
         names = [p for p, _ in params]
         given = {}
-        if any(isinstance(a, ast.Starred) for a in v.args) or len(v.args) > len(params):
+        if any(isinstance(a, ast.Starred) for a in v.args):
+            raise Unsupported("call form " + src(v))
+        if vararg is not None:
+            # every positional argument goes into the sequence parameter
+            given[vararg] = ast.List(elts=list(v.args), ctx=ast.Load())
+        elif len(v.args) > len(params):
             raise Unsupported("call form " + src(v))
         for i, a in enumerate(v.args):
+            if vararg is not None:
+                break
             given[names[i]] = a
         for kw in v.keywords:
             if kw.arg not in names:
@@ -166,8 +173,15 @@ class EffectMixin:
 
         def fin(codes, given_nodes):
             obs = []
+            code_of = {}
+            ci = 0
+            for pn, pt in fn.params:
+                if isinstance(pt, TErased):
+                    continue
+                code_of[pn] = codes[ci]
+                ci += 1
             for oname, oty, how in fn.observers:
-                obs.append(self.observer_for_effect_call(fn, oname, oty, how, given_nodes))
+                obs.append(self.observer_for_effect_call(fn, oname, oty, how, given_nodes, code_of))
             if recursive or getattr(fn, "recursive", False):
                 raise Unsupported("recursive procedure on an effect object")
             call = " ".join([fn.lean, recv] + [paren(c) for c in codes] + obs)
@@ -188,13 +202,32 @@ class EffectMixin:
                 return self.bind(call, rt, after, "r" if isinstance(rt, TTuple) else self.lname(key))
             tmp = self.fresh("r")
             return "let {} := {}\n{}".format(tmp, call, after(tmp, None))
-        return self.bind_args(list(fn.params), fn.defaults, v, env, fin)
+        return self.bind_args(list(fn.params), fn.defaults, v, env, fin, vararg=fn.vararg)
 
-    def observer_for_effect_call(self, fn, oname, oty, how, given):
+    def observer_for_effect_call(self, fn, oname, oty, how, given, code_of=None):
         """an abstract-outcome parameter of the callee (a label check): evaluated here when the label is a constant"""
         kind, pname, call_args = how
         node = given.get(pname, fn.defaults.get(pname))
-        if isinstance(node, ast.Constant) and isinstance(node.value, str) and call_args is not None:
+        if isinstance(node, ast.Constant) and isinstance(node.value, str) and isinstance(call_args, tuple) \
+                and call_args[0] == "star" and code_of is not None and call_args[1] in code_of:
+            # `label.format(*seq)` with a constant label: IndexError iff seq is shorter than the label needs
+            need = None
+            for k in range(0, 12):
+                try:
+                    node.value.format(*([1] * k))
+                    need = k
+                    break
+                except IndexError:
+                    continue
+                except KeyError:
+                    return "(Except.error Err.keyError)"
+                except ValueError:
+                    return "(Except.error Err.valueError)"
+            if need is None:
+                raise Unsupported("label needs more than 11 arguments")
+            return "(if (Py.len {}) ≥ ({} : Int) then Except.ok () else Except.error Err.indexError)".format(
+                code_of[call_args[1]], need)
+        if isinstance(node, ast.Constant) and isinstance(node.value, str) and isinstance(call_args, list):
             try:
                 node.value.format(*call_args)
                 return "(Except.ok ())"
